@@ -153,8 +153,30 @@ func c20DecodeOracle(in c20DecIn) probe.Outcome {
 		return probe.Fail("decoded field %s shares memory with the input buffer", p)
 	}
 	hdrBefore := *m.IKEHeader
+	// what the decoded message encodes to while the receive buffer still holds the datagram ...
+	var encBefore []byte
+	encErr := probe.Try(func() error {
+		if in.Protect {
+			return fmt.Errorf("not compared")
+		}
+		var e error
+		encBefore, e = m.Encode()
+		return e
+	})
+	if probe.IsPanic(encErr) {
+		encErr = fmt.Errorf("not compared")
+	}
+	encBefore = append([]byte(nil), encBefore...)
+	hdrBefore = *m.IKEHeader
 	for pass := 0; pass < 2; pass++ {
 		scribble(x, pass)
+		// ... is what it encodes to when the buffer has been reused (the message owns what it consists of)
+		if encErr == nil {
+			var y []byte
+			if err := probe.Try(func() error { var e error; y, e = m.Encode(); return e }); err != nil || !bytes.Equal(y, encBefore) {
+				return probe.Fail("the decoded, unmodified message encodes differently after the receive buffer was overwritten (%v):\n before %s\n after  %s", err, model.Clip(encBefore), model.Clip(y))
+			}
+		}
 		after, err := bridge.FromLib(m)
 		if err != nil {
 			return probe.Fail("HARNESS: %v", err)
@@ -383,6 +405,7 @@ var c20Protect = probe.Define("C20", "protect-touches-only-the-list", func(t *ra
 
 func TestC20(t *testing.T) {
 	c := probe.NewCtx(t, "C20")
+	idleStart(c, "decoded-message")
 	runIDSweep(c, func(m model.Message) bool {
 		w, err := ref.EncodeMessage(m, nil)
 		if err != nil {
@@ -394,4 +417,5 @@ func TestC20(t *testing.T) {
 	c20Unprotect.Run(c, t, c.N(1500, 15000))
 	c20Encode.Run(c, t, c.N(2500, 25000))
 	c20Protect.Run(c, t, c.N(1500, 15000))
+	idleFinish(c, "C20", "decoded-message")
 }
